@@ -25,9 +25,12 @@ func genStoreParams(rng *rand.Rand, vecKinds []string) storeParams {
 		p.Text = true
 	}
 	p.HnswM = 16
-	if p.VecKind == "ivf" {
+	if p.VecKind == "ivf" || p.VecKind == "pq" || p.VecKind == "ivfpq" {
 		p.Nlist = 1 + rng.IntN(4)
-		for i := 0; i < p.Nlist+20; i++ {
+		if p.VecKind == "ivfpq" {
+			p.Nlist = 1 + rng.IntN(2)
+		}
+		for i := 0; i < p.Nlist*10+20; i++ {
 			v := make([]float32, p.Dim)
 			for j := range v {
 				v[j] = float32(rng.NormFloat64())
@@ -59,7 +62,7 @@ func runC09(r *ev.Run) {
 	r.Assumptions = []string{"reopen happens in the same process with freshly constructed template objects (a new process is used in the thorough tier through cmd/storehelper)", "HNSW template: <=30 documents per memtable (exact regime per segment), IVF template trained before Open and searched at full probe"}
 	n := r.Pick(60, 1500)
 	r.CasesParallel("sessions", n, 8, func(ci int, rng *rand.Rand) {
-		p := genStoreParams(rng, []string{"flat", "flat", "hnsw", "ivf", ""})
+		p := genStoreParams(rng, []string{"flat", "flat", "hnsw", "ivf", "", "pq", "ivfpq"})
 		tmp, err := os.MkdirTemp("", "verif-c09-*")
 		if err != nil {
 			panic(err)
